@@ -434,6 +434,16 @@ def loss_monitor(info, b3=None):
                 if a0 is not None and b0 is not None and a0 != b0 and lc.get(basep) not in (a0, b0):
                     sig = "C02|lost-version|edited-conflict-copy-overwritten-by-repeat-conflict"
             out.append((sig, {"side": side, "path": p, "content_id": c, "on_A_after": onA, "on_B_after": onB, "situation": situation, "run": info["result"].brief()}))
+    # a file created on one side only (absent on the other side, not part of the last common state) is not in
+    # conflict with anything: after a completed run it is at ITS path on both sides (content alone is not enough -
+    # the same bytes may also live under another name)
+    if info["completed"]:
+        for side, other in (("A", "B"), ("B", "A")):
+            for p, c in pre[side].items():
+                if p in pre[other] or p in lc or CONFLICT_RE.match(p):
+                    continue
+                if post["A"].get(p) != c or post["B"].get(p) != c:
+                    out.append(("C02|one-sided-creation-not-at-its-path-on-both-sides", {"side": side, "path": p, "on_A_after": post["A"].get(p) == c, "on_B_after": post["B"].get(p) == c, "run": info["result"].brief()}))
     info["tracked"] = tracked
     info["exempt"] = exempt
     return out
